@@ -14,6 +14,9 @@ POOL = [
     D(svc=["s1", "s2"], ev=["e1"], resp="optional"), D(svc=["s1", "s2"], sf="args"), D(svc=["s2"], ev=["e1"]),
     D(svc=["s1"], st=["b"], tt=["timer"]), D(svc=["s2"], st=["a"], tt=["startup"], resp="optional"),
     D(st=["a"]), D(ev=["e1"], tt=["shutdown", "startup"]), D(svc=["s1", "s2"], tt=["shutdown", "startup"], resp="optional", sf="args"),
+    # a name with an upper-case letter; names spelled the other way (alt: pyscript.S1 = pyscript.s1 for HA)
+    D(svc=["S3"]), D(svc=["S3"], resp="optional", ev=["e2"]), D(svc=["S3", "s1"], sf="args"), D(svc=["s1"], alt=True),
+    D(svc=["S3", "s2"], st=["b"], resp="optional", alt=True),
 ]
 
 
@@ -27,6 +30,9 @@ def mc_jobs(ctx):
         # aliases, responses, reload, containers
         ("aliases", {"DeclSet": "{2, 3, 4}", "MaxSteps": 3 if q else 4, "MaxDefs": 1,
                      "Acts": acts("define", "del", "push", "clear", "reload", "call", "out")}, inv, prop, None),
+        # file contents whose top level fails after the definitions: nothing of them stays registered, the names are free
+        ("failing", {"DeclSet": "{1, 18}", "Ctx": '{"c1", "c2"}', "Name": '{"f"}', "MaxGen": 3, "MaxSteps": 3, "MaxDefs": 1 if q else 2,
+                     "Acts": acts("reload", "fail", "define", "close", "call")}, inv, prop, None),
         # three contexts (file, app, session)
         ("three", {"DeclSet": "{1}", "Ctx": '{"c1", "c2", "c3"}', "Name": '{"f"}', "MaxSteps": 5 if q else 6,
                    "Acts": acts("define", "del", "close", "call", "unload")}, inv, prop, None),
@@ -35,7 +41,11 @@ def mc_jobs(ctx):
     ]
     if not q:
         jobs.append(("boot", {"DeclSet": "{1, 15}", "Ctx": '{"c1", "c2"}', "StartedSet": "{FALSE}", "MaxDefs": 2, "MaxSteps": 3,
-                              "Acts": acts("boot", "reload", "define", "del", "call")}, inv, prop, None))
+                              "Acts": acts("boot", "reload", "fail", "define", "del", "call")}, inv, prop, None))
+        # services of a module: imported at run time / at load time, importer reloaded, module file removed
+        jobs.append(("modules", {"DeclSet": "{2, 18}", "Ctx": '{"c1", "c2", "c4"}', "Name": '{"f"}', "Vias": '{"exec", "run"}', "MaxGen": 3,
+                                 "MaxSteps": 3, "Acts": acts("import", "fail", "reload", "close", "define", "del", "call", "unload")},
+                     inv, prop, None))
     jobs += [
         ("flag:service-handler-not-repointed", {"FlagSets": '{{"service-handler-not-repointed"}}', "DeclSet": "{1}", "MaxSteps": 3,
                                                 "Acts": acts("define", "del", "call")}, inv, prop,
@@ -51,8 +61,15 @@ def mc_jobs(ctx):
         ("flag:dm-service-multi-arg-rejected", {"FlagSets": '{{"dm-service-multi-arg-rejected"}}', "DeclSet": "{11}", "MaxSteps": 1,
                                                 "Acts": acts("define")}, inv, prop, {"ActiveIffReferencedAndLoaded"}),
     ]
+    if q:       # quick tier: only the deviations still present in the code under test (every TLC run costs a JVM start);
+        # the configurations of the repaired ones (known_findings.jsonl: fixed) are checked in the thorough tier
+        jobs = [j for j in jobs if not j[0].startswith("flag:") or j[0] == "flag:service-handler-not-repointed"]
     for w in ("W_NoTwoDeclarers", "W_NoRefusal"):
         jobs.append((w, {"DeclSet": "{1}", "Ctx": '{"c1", "c2"}', "MaxSteps": 3, "Acts": acts("define", "del")}, [w], [], {w}))
+    # round 3: a name spelled with an upper-case letter redeclared, then a load that fails after a @service
+    w = "W_NoMixedCaseRedeclaredNorFailedLoad"
+    jobs.append((w, {"DeclSet": "{17}", "Name": '{"f"}', "Ctx": '{"c1", "c2"}', "MaxSteps": 3, "Acts": acts("define", "reload", "fail")},
+                 [w], [], {w}))
     return jobs
 
 
@@ -87,5 +104,5 @@ def main(ctx):
     sizes = {"sim": ctx.pick(6, 120), "depth": ctx.pick(8, 14), "rnd": ctx.pick(10, 150), "steps": ctx.pick(18, 40),
              "simsplit": ctx.pick(3, 6)}
     L.main_common(ctx, "C12", mc_jobs(ctx),
-                  {"MaxGen": 8, "DeclSet": "{1, 2, 3, 4, 5, 8, 11, 12, 14, 15}", "DeclSet_masked": "{1, 2, 3, 4, 5, 8, 15}"},
+                  {"MaxGen": 8, "DeclSet": "{1, 2, 3, 4, 5, 8, 11, 12, 14, 15, 17, 18, 20, 21}", "DeclSet_masked": "{1, 2, 3, 4, 5, 8, 11, 15, 17, 18}"},
                   POOL, sizes)
